@@ -20,4 +20,22 @@ CLAIMS["C02"] = {
     "note": "Trusted: TLC, bufio.Scanner (exercised), projection. Exhaustive within the model's classes/lengths; seeded beyond.",
     "technique": T,
 }
+CLAIMS["C03"] = {
+    "text": "SamFlag.tla: 4096 states x 24 setter actions, action property SetterExact; every one of the 98 304 transitions is executed on the real sam.Flag (setter result and all 12 accessors against the SAM specification's bit table written in the module). Sam.tla: write -> split on TAB -> ParseLine round trip for the baseline record with <= 2 fields replaced from pools (quote-leading, '@', ':', empty, negative ints) and <= 2 (3) typed tags; files of headers, records and 8 kinds of malformed lines with LF/CRLF/blank lines (headers verbatim, per-line errors, Reader = ReaderHeader minus headers); byte-level line loop = line denotation. The model's lines and files are read by the real readers. Seeded real records (all field bytes but TAB/CR/LF, extreme ints, 0-8 tags of all five types incl. NaN/Inf/-0/subnormal) and files are judged by Trace_Sam (one line, field count, tags sorted, spec reader decodes the real writer's line, real readers agree with the spec's denotation, round trip by float atoms).",
+    "ref": "DESIGN.md section 6 C03",
+    "note": "Trusted: TLC, strconv (ints as canonical text, floats as atoms plus a table of tokens ParseFloat accepts), projection. Tag keys are two characters.",
+    "technique": T,
+}
+CLAIMS["C04"] = {
+    "text": "Bed.tla: for n in 0..14 and the baseline record with <= 2 fields replaced from pools (quotes, '#', commas, empty, negative ints, RGB, consistent and inconsistent block lists) TLC checks Refuse (n outside 3..12), LineContract (one line, exactly n TAB-separated fields) and RoundTrip (the line parses back to the record truncated to n fields); files of records with 3 and 4 fields, comments and malformed lines obey the same-count / first-error rule. The model's lines and files are read by the real Reader. Seeded real records for every n (quote families, extreme ints, all RGB bytes, block lists), files of 1-20 records sharing n with comments/blank lines/CRLF, and writes with n outside 3..12 are judged by Trace_Bed.",
+    "ref": "DESIGN.md section 6 C04",
+    "note": "Trusted: TLC, strconv (ints as canonical text; table of tokens ParseUint(tok,0,8) accepts), projection. Domain read conservatively: a block count written without both lists is 0.",
+    "technique": T,
+}
+CLAIMS["C05"] = {
+    "text": "Newick.tla (writer, byte-level tokenizer, five-state parser over a node stack): TLC checks the round trip for every ordered tree with <= 3 (thorough 4) nodes over 8-9 names (empty, plain, space, '_', quotes, '(,', ':;', LF, digit) x {no distance, distance}, alone or followed by a second tree, with 5 separators; every name <= 3 (4) bytes over 13 structural classes is inverted by unquoting and round-trips in a tree; each written tree is condensed; the machine is total on all inputs <= 5 (7) bytes over 9 classes. Every emitted (trees, text) pair is read by the real Reader and re-written/re-read by the real code. Seeded trees to 10^4 nodes and chains, names over all bytes, distances incl. NaN/Inf/subnormal/-0, streams of 1-10 trees with random separators are judged by Trace_Newick (Write = MarshalText, condensed, real round trip by atoms, spec reader on the real writer's text).",
+    "ref": "DESIGN.md section 6 C05",
+    "note": "Trusted: TLC, strconv/fmt float text (distances are atoms), projection (own pre-order walk).",
+    "technique": T,
+}
 PENDING = {}
